@@ -31,6 +31,7 @@ func runC14(c *Ctx) {
 	c.rule("O7", "a value of a header is only taken from the list the header map holds where that list was found non-empty (or through Header.Get)", 1)
 	c.rule("O8", "the Retry-After header is looked at only on paths where the status code was found equal to 429 or to 503 (equality tests only, both codes present): an ordering test would let other statuses through", 1)
 	c.rule("O9", "a wait computed from the clock (time.Until, Time.Sub) is clamped at zero before it is used: the value goes nowhere but into a comparison or a merge whose lower bound is 0", 1)
+	c.rule("O10", "a retried operation reports the end of its context by ctx.Err() (converted to 'cancelled' / 'timeout'): context.Cause is not used in packages retry, http, parallelisation or commonerrors", 0)
 	c.rule("O2", "a header-derived number multiplied into a time.Duration is clamped to [0, MaxInt64/multiplier] on every path", 1)
 	c.rule("O3", "the Apply siblings share the Retry-After prologue: consulted only under ConsiderRetryAfter, hint returned exactly when found", 3)
 	c.rule("O4", "fall-backs: constant → min; linear → LinearJitterBackoff(min,max,attempt,resp); exponential → max unless the wait is representable and ≤ max", 3)
@@ -42,6 +43,7 @@ func runC14(c *Ctx) {
 	c.c14Selection()
 	c.c14HeaderValues()
 	c.c14StatusGate()
+	c.noContextCause("O10", []string{"retry", "http", "parallelisation", "commonerrors"})
 	c.c14ClockWaits()
 }
 
